@@ -256,9 +256,10 @@ pub fn c05_bytes(d: &[u8], label: &str, with_parse_request: bool) -> CaseOut {
         out.requests.push((format!("parse {}", hex(d)), resp));
     }
     for verify in [true, false] {
-        let t0 = std::time::Instant::now();
+        // CPU time of this thread, not wall-clock time: a loaded machine must not look like a slow library
+        let t0 = crate::util::thread_cpu_secs();
         let o = decompress(d, verify);
-        let dt = t0.elapsed().as_secs_f64();
+        let dt = crate::util::thread_cpu_secs() - t0;
         out.tags.push(format!("v{}-{}", verify as u8, outcome_word(&o)));
         if let Outcome::Panic(p) = &o {
             out.failures.push(Failure {
